@@ -77,3 +77,38 @@ def conforming_h(name="a.h"):
 
 
 GARBAGE = ["@", "]", "'x'", "42", "$$", ")", "\"s\""]
+
+
+# body shapes for the statement-partition oracle: (lines, number of statements).  One
+# statement per line except where a control statement and its empty body share a statement.
+SHAPES = {
+    "else_empty_last": (["\tif (a)", "\t\tb = 1;", "\telse ;"], 3),
+    "else_empty_mid": (["\tif (a)", "\t\tb = 1;", "\telse ;", "\tb = 2;"], 4),
+    "else_semi_glued": (["\tif (a)", "\t\tb = 1;", "\telse;", "\tb = 2;"], 4),
+    "while_empty": (["\twhile (a--) ;", "\tb = 3;"], 2),
+    "while_empty_nextline": (["\twhile (a--)", "\t\t;", "\tb = 3;"], 2),
+    "return_void": (["\tif (a)", "\t\treturn ;"], 2),
+    "else_if_chain": (["\tif (a)", "\t\tb = 1;", "\telse if (b)", "\t\tb = 2;", "\telse", "\t\tb = 3;"], 6),
+    "nested_braces": (["\tif (a)", "\t{", "\t\twhile (b)", "\t\t{", "\t\t\tb--;", "\t\t}", "\t}"], 7),
+    "if_in_else_block": (["\tif (a)", "\t\tb = 1;", "\telse", "\t{", "\t\tif (b)", "\t\t\tb = 2;", "\t}"], 7),
+    "break_continue": (["\twhile (a)", "\t{", "\t\tif (b)", "\t\t\tbreak ;", "\t\tcontinue ;", "\t}"], 6),
+    "plain": (["\ta = b + 1;", "\tft_putnbr(a, b);"], 2),
+}
+
+
+def shaped_program(shape_names, name="a.c", tail_return=True):
+    """two functions; the first one's body is the concatenation of the named shapes.
+    -> (text, expected number of statements)"""
+    body, nst = [], 0
+    for sn in shape_names:
+        lines, k = SHAPES[sn]
+        body += lines
+        nst += k
+    if tail_return:
+        body.append("\treturn (b);")
+        nst += 1
+    hdr = header(name).rstrip("\n").split("\n")
+    lines = hdr + ["", "int\tft_fa(int a, int b)", "{"] + body + ["}", "", "int\tft_fb(void)", "{", "\treturn (0);", "}"]
+    # statements: 11 header comments + empty + prototype line + '{' + body + '}' + empty + 4 lines of ft_fb
+    expected = 11 + 1 + 1 + 1 + nst + 1 + 1 + 4
+    return "\n".join(lines) + "\n", expected
